@@ -13,6 +13,8 @@ for name in sorted(os.listdir(os.path.join(ROOT, 'seeded'))):
     meta = json.load(open(os.path.join(d, 'meta.json')))
     prop = meta['property']
     env = dict(os.environ, MUT_SLOT='3')
+    env.pop('MUT_BASE', None)
+    head = subprocess.run(['git', '-C', '/repo', 'rev-parse', '--short', 'HEAD'], capture_output=True, text=True).stdout.strip()
     base = head
     # does the patch still apply on HEAD?
     chk = subprocess.run(['git', '-C', '/repo', 'apply', '--check', os.path.join(d, 'patch.diff')], capture_output=True)
